@@ -25,6 +25,7 @@ type sobj struct {
 	tainted         bool        // another state's operation was seen in this one
 	mutated         int         // mutators applied since this state was created/copied
 	parentMutAtCopy int
+	revertBroken    bool // a revert of this state did not restore its observables
 	roots           []string
 }
 
@@ -95,7 +96,13 @@ func (r *runner) relation(x, y *sobj) string {
 	return "sibling"
 }
 
+// report records a violation once per key. Keys are "<oracle>/<observable class>", with the suffix
+// "@flat-kv" when the case ran on the flat key-value backend (its committed state is a single
+// mutable store, so its defects are its own and must not hide or be hidden by trie-backend ones).
 func (r *runner) report(key, detail string, opIdx, x, y int) {
+	if isKV(r.be.mode) {
+		key += "@flat-kv"
+	}
 	if r.seen[key] {
 		return
 	}
@@ -248,6 +255,11 @@ func (r *runner) step(o op) (applied bool) {
 				}
 				if len(X.span) == s.spanPos {
 					r.cnt["reverts_empty_span"]++
+				} else {
+					r.cnt["reverts_nonempty"]++
+					if X.id != 0 {
+						r.cnt["reverts_nonempty_on_copies"]++
+					}
 				}
 				X.span = X.span[:s.spanPos]
 				X.snaps = X.snaps[:k]
@@ -266,10 +278,14 @@ func (r *runner) step(o op) (applied bool) {
 	if o.K == "snap" {
 		X.snaps[len(X.snaps)-1].obs = X.last
 	}
-	if reverted != nil {
+	if reverted != nil && X.tainted {
+		// a foreign write was already reported for this state; its reverts cannot be judged any more
+		r.cnt["revert_checks_skipped_after_independence_violation"]++
+	} else if reverted != nil {
 		r.cnt["revert_observables_compared"] += int64(len(X.last))
 		if i, n := firstDiff(reverted.obs, X.last); i >= 0 {
 			key := "revert/" + classes[obsClass[i]]
+			X.revertBroken = true
 			r.report(key, fmt.Sprintf("op#%d %v: %s was %s at snapshot (op#%d), is %s after the revert (%d observables differ) [%s]",
 				idx, o, obsLabel[i], show(i, reverted.obs[i]), reverted.opIdx, show(i, X.last[i]), n, mname), idx, X.id, X.id)
 		}
